@@ -322,6 +322,14 @@ func execJWT(f []string) string {
 	if f[0] == "0" {
 		prod = "other"
 	}
+	switch histMode {
+	case "load":
+		accJWT[prod] = rules
+		return "parsed"
+	case "req":
+		req.Route.Product = prod
+		return render(jwtMod.Run(req))
+	}
 	ret, resp, err := jwtMod.Handle(prod, rules, req)
 	if err != nil {
 		return "err:conf"
